@@ -618,7 +618,8 @@ def _reuse_connective(E, **kw):
 
 
 FAMILIES.append(
-    Family('reuse_connective', _reuse_connective, quick=dict(modes=(1,)), thorough=dict(modes=(1,)),
+    Family('reuse_connective', _reuse_connective, quick=dict(modes=(1,), shapes=(0, 1, 2)),
+           thorough=dict(modes=(1,), shapes=(0, 1, 2)),
            reach=['second-use-after-the-first-was-released', 'second-use-after-a-reset'],
            bounds='a stored (a & b) | c / a | c object used by two until-blocks entered in [0,30] '
                   'while five flag toggles happen at free gaps in [0,6] (harness shared with C08)'))
